@@ -106,7 +106,72 @@ def r05_4(ctx):
     ctx.ob('R05.4', '_trywaitkill:TERM-before-KILL', ok, tk, None, 'the termination signal is tried first', path=w)
 
 
+def helpers_hold_live_objects(ctx, rule):
+    """The helper threads are handed the pool's mutable objects (worker list, job cache, counters) and must keep
+    *those objects* -- not copies: the supervisor mutates them in place, a snapshot goes stale after the first
+    replacement."""
+    ctx.rule(rule, 'helper threads keep the pool\'s live worker list / cache / counters (no defensive copies)', floor=4)
+    m = ctx.model
+    pool = m.cls('pool:Pool')
+    live = {'self._pool': 'worker list', 'self._cache': 'job cache', 'self._on_ready_counters': 'per-worker counters'}
+    n = 0
+    for name, fi in sorted(pool.methods.items()):
+        for c in [x for x in walk_own(fi.node) if isinstance(x, ast.Call)]:
+            cal = fi.callee(c)
+            if not (cal.startswith('self.') and cal.count('.') == 1):
+                continue
+            v = m.class_attr(pool, cal.split('.')[1])
+            target = m.resolve_class(dotted(v), fi.module) if v is not None and dotted(v) else None
+            if target is None:
+                continue
+            init = m.method(target, '__init__')
+            if init is None:
+                continue
+            P = init.positional_params()[1:]
+            bound = {}
+            for i, a in enumerate(c.args):
+                if i < len(P) and ast.unparse(a) in live:
+                    bound[P[i]] = ast.unparse(a)
+            for k in c.keywords:
+                if k.arg and ast.unparse(k.value) in live:
+                    bound[k.arg] = ast.unparse(k.value)
+            for p, what in sorted(bound.items()):
+                n += 1
+                stores = [(dn, t, v2) for (dn, t, v2) in q.assigns(init, lambda t: t.startswith('self.'))
+                          if v2 is not None and any(isinstance(x, ast.Name) and x.id == p for x in ast.walk(v2))]
+                ok = bool(stores) and all(isinstance(v2, ast.Name) and v2.id == p for (dn, t, v2) in stores)
+                ctx.ob(rule, '%s.__init__:keeps-%s-by-reference' % (target.name, p), ok, init,
+                       stores[0][0] if stores else None,
+                       'self.<attr> = %s (the pool\'s %s itself)' % (p, live[what]) if ok else
+                       '%s stores a copy of the pool\'s %s: after the first worker replacement it looks at a '
+                       'stale snapshot' % (target.name, live[what]))
+    q.need(n >= 4, 'constructor sites of the helper threads not found')
+
+
+def r05_7(ctx):
+    ctx.rule('R05.7', 'the time-limit scanner keeps running after close(): only the finalizer stops it', floor=1)
+    m = ctx.model
+    bad = []
+    n = 0
+    for qn, fi in sorted(m.funcs.items()):
+        if fi.module.name != 'pool' or fi.qual == 'pool:Pool._terminate_pool':
+            continue
+        for c in [x for x in walk_own(fi.node) if isinstance(x, ast.Call)]:
+            cal = fi.callee(c)
+            if cal in ('self._timeout_handler.close', 'self._timeout_handler.terminate', 'self._timeout_handler.stop'):
+                bad.append((fi, c))
+    tp = m.func('pool:Pool._terminate_pool')
+    stops = q.calls(tp, ('timeout_handler.terminate', 'timeout_handler.stop'))
+    ctx.ob('R05.7', 'scanner-stopped-only-by-the-finalizer', not bad and len(stops) >= 2, bad[0][0] if bad else tp,
+           bad[0][1] if bad else None,
+           'no method but _terminate_pool changes the scanner\'s state' if not bad else
+           '%s stops the scanner: a job accepted before close() whose limit expires afterwards is never timed out'
+           % bad[0][0].qual)
+
+
 def run(ctx):
+    helpers_hold_live_objects(ctx, 'R05.8')
+    r05_7(ctx)
     r04_1(ctx, site=_scanner_side, floor=5)
     r05_1(ctx)
     r05_2(ctx, 'hard', 'R05.2')
@@ -123,6 +188,10 @@ def run(ctx):
 
 _P = 'billiard/pool.py'
 MUTANTS = [
+    ('scanner-snapshots-the-worker-list', _P, "        self.processes = processes\n", "        self.processes = list(processes)\n", 'R05.8'),
+    ('scanner-copies-the-cache', _P, "        self.processes = processes\n        self.cache = cache\n", "        self.processes = processes\n        self.cache = dict(cache)\n", 'R05.8'),
+    ('close-stops-the-scanner', _P, "            self._worker_handler.close()\n            self._taskqueue.put(None)\n",
+     "            self._worker_handler.close()\n            if self._timeout_handler is not None:\n                self._timeout_handler.close()\n            self._taskqueue.put(None)\n", 'R05.7'),
     ('job-limit-ignored', _P, "                hard_timeout = job._timeout\n                if hard_timeout is None:\n                    hard_timeout = t_hard\n",
      "                hard_timeout = t_hard\n", 'R05.2'),
     ('pool-default-wins', _P, "                hard_timeout = job._timeout\n                if hard_timeout is None:\n                    hard_timeout = t_hard\n",
